@@ -149,6 +149,7 @@ pub fn exec<T, F: Future<Output = T>>(fut: F) -> Run<T> {
 
 pub fn exec_with<T, F: Future<Output = T>>(fut: F, steps: u64, watchdog: Duration) -> Run<T> {
     crate::sink::reset_op_ids();
+    crate::universal::reset_thread();
     match pool::catch(|| rt::run(fut, steps, watchdog)) {
         Ok((v, st)) => Run::Done(v, st),
         Err(p) => match rt::take_abort() {
